@@ -36,6 +36,33 @@ TOL = {"vs": 1e-8, "unwh": 1e-8, "bdec": 1e-8, "orth": 1e-8, "grid": 1e-8, "lmc"
 
 # --------------------------------------------------------------------------- model construction
 
+KBITS = 16                 # kernel matrices of most cases are rounded to a 2^-16 grid (see DyadicKernel)
+JIT_DY = 2.0 ** -20        # explicit jitter_val of those cases (a dyadic close to the 1e-6 default)
+
+
+class DyadicKernel(gpytorch.kernels.Kernel):
+    """k(x, x') rounded entrywise to a 2^-KBITS grid.  The strategies are generic in the kernel; rounding keeps
+    the exact-rational model cheap (operands of ~100 instead of ~1000 bits) so that many more configurations
+    fit in the budget.  Raw kernels are used in the `raw` cases."""
+
+    def __init__(self, base):
+        super().__init__()
+        self.base_kernel = base
+
+    @property
+    def batch_shape(self):
+        return self.base_kernel.batch_shape
+
+    def forward(self, x1, x2, diag=False, **params):
+        from linear_operator import to_dense
+        k = to_dense(self.base_kernel.forward(x1, x2, diag=diag, **params))
+        return torch.round(k * 2.0 ** KBITS) / 2.0 ** KBITS
+
+
+def dy(rng, lo, hi, den=16):
+    """a dyadic rational k/den in [lo, hi]"""
+    return rng.randint(int(np.ceil(lo * den)), int(np.floor(hi * den))) / den
+
 def make_kernel(name, d, bs, rng):
     k = gpytorch.kernels
     bsz = torch.Size(bs)
@@ -45,7 +72,7 @@ def make_kernel(name, d, bs, rng):
                             .reshape(bs + list(shape))) if (bs or shape) else rng.uniform(lo, hi)
 
     def ls():
-        return draw(0.6, 1.8, (1, 1)) if bs else rng.uniform(0.6, 1.8)
+        return draw(0.5, 1.2, (1, 1)) if bs else rng.uniform(0.5, 1.2)
     if name == "rbf":
         m = k.RBFKernel(batch_shape=bsz); m.lengthscale = ls()
     elif name == "matern25":
@@ -66,12 +93,12 @@ def make_mean(name, d, bs, rng):
         return gpytorch.means.ZeroMean(batch_shape=bsz)
     if name == "constant":
         m = gpytorch.means.ConstantMean(batch_shape=bsz)
-        m.constant.data.copy_(torch.tensor([rng.uniform(-1.5, 1.5) for _ in range(int(np.prod(bs)) if bs else 1)])
+        m.constant.data.copy_(torch.tensor([dy(rng, -1.5, 1.5, 8) for _ in range(int(np.prod(bs)) if bs else 1)])
                               .reshape(m.constant.shape))
         return m
     m = gpytorch.means.LinearMean(d, batch_shape=bsz)
-    m.weights.data.copy_(torch.tensor([rng.uniform(-1, 1) for _ in range(m.weights.numel())]).reshape(m.weights.shape))
-    m.bias.data.copy_(torch.tensor([rng.uniform(-1, 1) for _ in range(m.bias.numel())]).reshape(m.bias.shape))
+    m.weights.data.copy_(torch.tensor([dy(rng, -1, 1, 8) for _ in range(m.weights.numel())]).reshape(m.weights.shape))
+    m.bias.data.copy_(torch.tensor([dy(rng, -1, 1, 8) for _ in range(m.bias.numel())]).reshape(m.bias.shape))
     return m
 
 
@@ -83,29 +110,29 @@ def make_dist(name, m, bs):
 
 
 def rand_spd(m, rng):
-    """a well conditioned SPD matrix (dyadic-ish entries), eigenvalues in ~[0.3, 3]"""
-    a = np.array([[rng.uniform(-0.6, 0.6) for _ in range(m)] for _ in range(m)])
-    return a @ a.T + np.diag([rng.uniform(0.4, 1.2) for _ in range(m)])
+    """a well conditioned SPD matrix with dyadic entries: B B^T + D"""
+    a = np.array([[dy(rng, -0.5, 0.5, 8) for _ in range(m)] for _ in range(m)])
+    return a @ a.T + np.diag([dy(rng, 0.5, 1.25, 8) for _ in range(m)])
 
 
 def fill_dist(dist, name, m, bs, rng, mode="random"):
-    """set the raw parameters; returns nothing (parameters are read back from the module)"""
+    """set the raw parameters (dyadic values, exactly representable on both sides)"""
     nb = int(np.prod(bs)) if bs else 1
 
     def vec():
-        return [[rng.uniform(-1, 1) for _ in range(m)] for _ in range(nb)]
+        return [[dy(rng, -1, 1) for _ in range(m)] for _ in range(nb)]
     with torch.no_grad():
         if name == "cholesky":
             L = []
             for _ in range(nb):
-                a = [[rng.uniform(-0.6, 0.6) for _ in range(m)] for _ in range(m)]   # upper part is garbage
+                a = [[dy(rng, -0.625, 0.625) for _ in range(m)] for _ in range(m)]   # upper part is garbage
                 for i in range(m):
-                    a[i][i] = rng.uniform(0.4, 1.3) * (-1 if rng.random() < 0.15 else 1)
+                    a[i][i] = dy(rng, 0.4, 1.3) * (-1 if rng.random() < 0.15 else 1)
                 L.append(a)
             dist.variational_mean.copy_(torch.tensor(vec()).reshape(dist.variational_mean.shape))
             dist.chol_variational_covar.copy_(torch.tensor(L).reshape(dist.chol_variational_covar.shape))
         elif name == "meanfield":
-            s = [[rng.uniform(0.3, 1.5) * (-1 if rng.random() < 0.2 else 1) for _ in range(m)] for _ in range(nb)]
+            s = [[dy(rng, 0.3, 1.5) * (-1 if rng.random() < 0.2 else 1) for _ in range(m)] for _ in range(nb)]
             dist.variational_mean.copy_(torch.tensor(vec()).reshape(dist.variational_mean.shape))
             dist._variational_stddev.copy_(torch.tensor(s).reshape(dist._variational_stddev.shape))
         elif name == "delta":
@@ -117,9 +144,11 @@ def fill_dist(dist, name, m, bs, rng, mode="random"):
         else:
             T = []
             for _ in range(nb):
-                a = [[rng.uniform(-0.6, 0.6) if j < i else 0.0 for j in range(m)] for i in range(m)]
+                # garbage above the diagonal with probability 1/2 (solve_triangular must ignore it)
+                junk = rng.random() < 0.5
+                a = [[dy(rng, -0.625, 0.625) if (j < i or junk) else 0.0 for j in range(m)] for i in range(m)]
                 for i in range(m):
-                    a[i][i] = rng.uniform(0.5, 1.5)
+                    a[i][i] = dy(rng, 0.5, 1.5)
                 T.append(a)
             dist.natural_vec.copy_(torch.tensor(vec()).reshape(dist.natural_vec.shape))
             dist.natural_tril_mat.copy_(torch.tensor(T).reshape(dist.natural_tril_mat.shape))
@@ -187,7 +216,7 @@ def mark_initialized(strategy):
         s = getattr(s, "base_variational_strategy", None)
 
 
-def points(rng, k, d, lo=-16, hi=16, sep=0.25):
+def points(rng, k, d, lo=-36, hi=36, sep=0.5):
     for _ in range(500):
         pts = [[rng.randint(lo, hi) / 8.0 for _ in range(d)] for _ in range(k)]
         if all(max(abs(a - b) for a, b in zip(p, q)) >= sep for p, q in itertools.combinations(pts, 2)):
@@ -200,50 +229,66 @@ def points(rng, k, d, lo=-16, hi=16, sep=0.25):
 def gen_cases(rng, tier):
     cases = []
     big = tier != "quick"
-    mmax = 5
+
+    def msize():
+        # inducing sets 2..5; the exact-rational cost grows steeply with m, so small sets dominate
+        return rng.choice([2, 2, 3, 3, 3, 4, 4, 5] if not big else [2, 3, 3, 4, 4, 5, 5])
 
     def base(strat, dist, **kw):
-        c = dict(strat=strat, dist=dist, m=rng.randint(2, mmax), n=rng.randint(2, 4), d=rng.randint(1, 2),
-                 kernel=rng.choice(KERNELS), mean=rng.choice(MEANS), batch="none", family="random",
+        c = dict(strat=strat, dist=dist, m=msize(), n=rng.randint(2, 3), d=rng.randint(1, 2),
+                 kernel=rng.choice(KERNELS), mean=rng.choice(MEANS), batch="none", family="random", raw=False,
                  hseed=rng.randint(0, 10 ** 9))
         c.update(kw)
         return c
-    reps = 1 if not big else 4
-    for _ in range(reps):
-        # every strategy x every distribution, unbatched; m cycles through 2..5
+    reps = 1 if not big else 5
+    for rep in range(reps):
+        # every strategy x every distribution, unbatched
         for strat in ("vs", "unwh", "ciq", "bdec", "grid"):
             for k, dist in enumerate(DISTS):
-                if strat == "bdec" and dist == "delta":
-                    continue            # constructor refuses (NotImplementedError) — checked in run()
-                if strat == "grid" and dist == "delta":
-                    continue            # forward raises for Delta — checked in run()
+                if strat in ("bdec", "grid") and dist == "delta":
+                    continue            # refused by the code (NotImplementedError / RuntimeError) — see check_refusals
                 c = base(strat, dist)
                 if strat == "grid":
                     c.update(m=rng.choice([5, 6]), d=1, n=rng.randint(2, 3))
+                if strat == "bdec":
+                    c.update(m=rng.choice([2, 3, 3, 4]))
                 cases.append(c)
+        # the same grid once more with m forced to the largest size 5 (quick: plain strategies only)
+        for strat in ("vs", "unwh", "ciq"):
+            for dist in (DISTS if big else rng.sample(DISTS, 2)):
+                cases.append(base(strat, dist, m=5, n=2))
+        # raw (unrounded) kernels and the default jitter: small sizes
+        for strat in ("vs", "unwh", "ciq", "bdec", "orth"):
+            for dist in (DISTS if big else rng.sample(DISTS, 2)):
+                if strat == "bdec" and dist == "delta":
+                    continue
+                cases.append(base(strat, dist, raw=True, m=rng.randint(2, 3), n=2, g=2))
         # batch patterns for the three plain strategies
         for strat in ("vs", "unwh", "ciq"):
             for bp in ("model", "x", "both", "params"):
                 for dist in rng.sample(DISTS, 2 if not big else 5):
-                    cases.append(base(strat, dist, batch=bp, m=rng.randint(2, 4), n=rng.randint(2, 3)))
+                    cases.append(base(strat, dist, batch=bp, m=rng.randint(2, 3), n=2))
         # batch-decoupled with separate mean/variance hyperparameters
         for dist in ("cholesky", "meanfield", "natural", "trilnatural"):
-            cases.append(base("bdec", dist, batch="hypers", m=rng.randint(2, 4)))
+            cases.append(base("bdec", dist, batch="hypers", m=rng.randint(2, 3)))
         # orthogonally decoupled on top of a whitened base with every base distribution
         for dist in DISTS:
-            cases.append(base("orth", dist, m=rng.randint(2, 4), n=rng.randint(2, 3), g=rng.randint(2, 3)))
+            cases.append(base("orth", dist, m=rng.randint(2, 3), n=2, g=rng.randint(2, 3)))
         # multitask wrappers
         for strat in ("lmc", "imt"):
             for dist in DISTS:
-                cases.append(base(strat, dist, m=rng.randint(2, 4), n=rng.randint(2, 3), T=rng.randint(2, 3),
+                cases.append(base(strat, dist, m=rng.randint(2, 3), n=2, T=rng.randint(2, 3),
                                   Q=rng.randint(1, 3), zbatch=rng.random() < 0.5, kbatch=rng.random() < 0.5))
         # q(u) = p(u): q(f) must be the prior, KL = 0
         for strat in ("vs", "unwh", "ciq"):
             for dist in ("cholesky", "natural", "trilnatural") + (("meanfield",) if strat != "unwh" else ()):
-                cases.append(base(strat, dist, family="prior", m=rng.randint(2, 4)))
+                cases.append(base(strat, dist, family="prior", m=rng.randint(2, 3)))
         # unwhitened shortcut X == Z
         for dist in ("cholesky", "meanfield", "natural", "trilnatural"):
-            cases.append(base("unwh", dist, family="x_is_z", m=rng.randint(2, 4)))
+            cases.append(base("unwh", dist, family="x_is_z", m=rng.randint(2, 3)))
+        # whitened parameters through the unwhitened closed form (theorem cross-check), tiny
+        for strat in ("vs", "ciq"):
+            cases.append(base(strat, "cholesky", m=2, n=2, family="crossform"))
     return cases
 
 
@@ -269,8 +314,11 @@ def build(case):
     if strat == "bdec" and bp == "hypers":
         mb = [2]
     kern = make_kernel(case["kernel"], d, mb, rng)
+    if not case.get("raw"):
+        kern = DyadicKernel(kern)
+    jkw = {} if case.get("raw") else dict(jitter_val=JIT_DY)
     mean = make_mean(case["mean"], d, mb, rng)
-    allpts = points(rng, m + n + case.get("g", 0) + m, d)
+    allpts = points(rng, m + n + case.get("g", 0) + (m if strat == "bdec" else 0), d)
     Z = torch.tensor(allpts[:m])
     X = torch.tensor(allpts[m:m + n])
     if case["family"] == "x_is_z":
@@ -285,28 +333,28 @@ def build(case):
     vd = make_dist(dist, m, pb)
     b.dist = vd
     if strat == "vs":
-        mk = lambda mod: V.VariationalStrategy(mod, Z, vd, learn_inducing_locations=True)  # noqa: E731
+        mk = lambda mod: V.VariationalStrategy(mod, Z, vd, learn_inducing_locations=True, **jkw)  # noqa: E731
     elif strat == "unwh":
-        mk = lambda mod: V.UnwhitenedVariationalStrategy(mod, Z, vd, learn_inducing_locations=True)  # noqa: E731
+        mk = lambda mod: V.UnwhitenedVariationalStrategy(mod, Z, vd, learn_inducing_locations=True, **jkw)  # noqa: E731
     elif strat == "ciq":
-        mk = lambda mod: V.CiqVariationalStrategy(mod, Z, vd, learn_inducing_locations=True)  # noqa: E731
+        mk = lambda mod: V.CiqVariationalStrategy(mod, Z, vd, learn_inducing_locations=True, **jkw)  # noqa: E731
     elif strat == "bdec":
         mk = lambda mod: V.BatchDecoupledVariationalStrategy(  # noqa: E731
-            mod, Z, vd, learn_inducing_locations=True, mean_var_batch_dim=(-1 if bp == "hypers" else None))
+            mod, Z, vd, learn_inducing_locations=True, mean_var_batch_dim=(-1 if bp == "hypers" else None), **jkw)
     elif strat == "orth":
         def mk(mod):
-            basevs = V.VariationalStrategy(mod, Z, vd, learn_inducing_locations=True)
-            return V.OrthogonallyDecoupledVariationalStrategy(basevs, Zg, V.DeltaVariationalDistribution(Zg.size(-2)))
+            basevs = V.VariationalStrategy(mod, Z, vd, learn_inducing_locations=True, **jkw)
+            return V.OrthogonallyDecoupledVariationalStrategy(basevs, Zg, V.DeltaVariationalDistribution(Zg.size(-2)), **jkw)
     elif strat == "grid":
         lo, hi = -1.0, 1.0 + 0.25 * rng.randint(0, 4)
         mk = lambda mod: V.GridInterpolationVariationalStrategy(mod, m, [(lo, hi)], vd)  # noqa: E731
     elif strat == "lmc":
         mk = lambda mod: V.LMCVariationalStrategy(  # noqa: E731
-            V.VariationalStrategy(mod, Z, vd, learn_inducing_locations=True), num_tasks=case["T"],
-            num_latents=case["Q"], latent_dim=-1)
+            V.VariationalStrategy(mod, Z, vd, learn_inducing_locations=True, **jkw), num_tasks=case["T"],
+            num_latents=case["Q"], latent_dim=-1, **jkw)
     else:
         mk = lambda mod: V.IndependentMultitaskVariationalStrategy(  # noqa: E731
-            V.VariationalStrategy(mod, Z, vd, learn_inducing_locations=True), num_tasks=case["T"])
+            V.VariationalStrategy(mod, Z, vd, learn_inducing_locations=True, **jkw), num_tasks=case["T"])
     model = GP(mk, mean, kern)
     vs = model.variational_strategy
     mark_initialized(vs)
@@ -320,9 +368,9 @@ def build(case):
             ip[tuple(idx)] = Z2
         if strat == "orth":
             vs._variational_distribution.variational_mean.copy_(
-                torch.tensor([rng.uniform(-1, 1) for _ in range(Zg.size(-2))]))
+                torch.tensor([dy(rng, -1, 1) for _ in range(Zg.size(-2))]))
         if strat == "lmc":
-            vs.lmc_coefficients.copy_(torch.tensor([[rng.uniform(-1.5, 1.5) for _ in range(case["T"])]
+            vs.lmc_coefficients.copy_(torch.tensor([[dy(rng, -1.5, 1.5, 8) for _ in range(case["T"])]
                                                     for _ in range(case["Q"])]))
         if strat == "grid":
             g = vs.grid[:, 0]
@@ -455,14 +503,23 @@ def plan(b, mode):
         if strat in ("vs", "lmc", "imt"):
             out.append(("run_c14", coq_term(1, m, n, 0, Kb, mub, (jit, jit, 0.0), kind, p1, p2, root_of(b, Kzz), [], []),
                         dict(bi=bi)))
+            if case["family"] == "crossform":
+                out.append(("run_c14", coq_term(4, m, n, 0, Kb, mub, (jit, jit, 0.0), kind, p1, p2, root_of(b, Kzz), [], []),
+                            dict(bi=bi, cross=True)))
         elif strat == "ciq":
             jx = jit if dist == "natural" else 2 * jit
             out.append(("run_c14", coq_term(1, m, n, 0, Kb, mub, (jit, jx, 0.0), kind, p1, p2, root_of(b, Kzz), [], []),
                         dict(bi=bi)))
+            if case["family"] == "crossform":
+                out.append(("run_c14", coq_term(4, m, n, 0, Kb, mub, (jit, jx, 0.0), kind, p1, p2, root_of(b, Kzz), [], []),
+                            dict(bi=bi, cross=True)))
         elif strat == "unwh":
             jzz = 0.0 if case["family"] == "x_is_z" else jit
             out.append(("run_c14", coq_term(0, m, n, 0, Kb, mub, (jzz, 0.0, jit), kind, p1, p2, [[0.0]], [], []),
                         dict(bi=bi)))
+            # diagnosis only: the KL against a prior carrying linear_operator's DEFAULT add_jitter() value (1e-3)
+            out.append(("run_c14", coq_term(0, m, 0, 0, [r[:m] for r in Kb[:m]], mub[:m], (jzz, 0.0, 1e-3), kind, p1, p2,
+                                            [[0.0]], [], []), dict(bi=bi, alt=True)))
         elif strat == "grid":
             out.append(("run_c14", coq_term(2, m, n, 0, Kb, mub, (0.0, 0.0, 1e-3), kind, p1, p2, [[0.0]], [], b.grid_idx),
                         dict(bi=bi)))
@@ -495,8 +552,6 @@ def decode(r, m, n, whitened):
     d["kl"] = rd.expr()
     if whitened and not rd.done():
         d["root_resid"] = rd.q()
-        d["mean2"] = rd.qs(n)
-        d["cov2"] = rd.qmat(n, n)
     return d
 
 
@@ -512,8 +567,11 @@ def maxdiff(a, bq):
 
 def bsel(t, bshape, bi, ev):
     """element bi of tensor t broadcast over batch shape bshape (ev trailing event dims)"""
-    t = t.expand(*bshape, *t.shape[t.dim() - ev:]) if t.dim() - ev <= len(bshape) else t
-    return t.reshape(-1, *t.shape[t.dim() - ev:])[bi] if len(bshape) else t.reshape(*t.shape[t.dim() - ev:])
+    evs = list(t.shape[t.dim() - ev:]) if ev else []
+    if not bshape:
+        return t.reshape(evs) if evs else t.reshape(())
+    t = t.expand(*bshape, *evs)
+    return t.reshape(-1, *evs)[bi]
 
 
 def short(case):
@@ -553,10 +611,14 @@ def compare_plain(out, b, impl, dec_by_mode):
                 e = maxdiff(cov_i, dm["cov"])
                 if e > tol:
                     key = "cov:%s:eval" % tag
+                    offd = cov_i - torch.diag(cov_i.diagonal())
+                    if ngd_ciq and float(offd.abs().max()) == 0.0 and maxdiff(cov_i.diagonal(), diag) <= tol:
+                        key = "cov-diagonal-only:ciq:natural"
                     out.fail(key, "q(f) covariance differs from Kxx - Kxz Kzz^-1 (Kzz - S) Kzz^-1 Kzx by %.3g" % e,
                              desc, impl=cov_i.tolist(), model=[[float(v) for v in row] for row in dm["cov"]])
-                if "cov2" in dm:   # the same q(f) through the unwhitened closed form (theorem whitened_eq_unwhitened)
-                    e2 = max(maxdiff(cov_i, dm["cov2"]) if not ngd_ciq else 0.0, maxdiff(mean_i, dm["mean2"]))
+                if dec_by_mode.get("cross"):   # the same q(f) through the unwhitened closed form (theorem)
+                    dc = dec_by_mode["cross"][bi]
+                    e2 = max(maxdiff(cov_i, dc["cov"]), maxdiff(mean_i, dc["mean"])) if dc else float("inf")
                     if e2 > max(tol, 1e-7):
                         out.fail("unwhitened-form:%s" % tag, "whitened output differs from the unwhitened closed form "
                                  "of u = mz + L e by %.3g" % e2, desc)
@@ -586,7 +648,17 @@ def compare_plain(out, b, impl, dec_by_mode):
             want = float(dm["kl"])
             ktol = max(tol, 1e-8)
             if not abs(kl_i - want) <= ktol * (1 + abs(want)):
-                out.fail("kl:%s:%s" % (tag, mode), "kl_divergence() = %.10g but KL(q(u)||p(u)) = %.10g" % (kl_i, want),
+                key = "kl:%s:%s" % (tag, mode)
+                note = ""
+                alt = dec_by_mode.get("alt")
+                if alt and alt[bi] is not None and abs(kl_i - float(alt[bi]["kl"])) <= ktol * (1 + abs(want)):
+                    key = "kl:unwh:prior-default-jitter:%s" % mode
+                    note = (" (it equals the KL against N(mz, Kzz + 1e-3 I): prior_distribution uses add_jitter() with "
+                            "the library default instead of jitter_val=%.3g)" % b.jit)
+                elif ngd_ciq and kl_i == 0.0:
+                    key = "kl-zero:ciq:natural"
+                    note = " (NGD-CIQ never computes the KL value in the forward pass)"
+                out.fail(key, "kl_divergence() = %.10g but KL(q(u)||p(u)) = %.10g%s" % (kl_i, want, note),
                          desc, impl=kl_i, model=want)
             if case["family"] == "prior":
                 pm = bsel(r["mean"], b.bshape, bi, 1)
@@ -628,7 +700,10 @@ def run(out, ctx):
                 pl = plan(b, mode)
                 b.slots[mode] = []
                 for fn, term, meta in pl:
-                    b.slots[mode].append((fn, len(jobs[fn])))
+                    if meta.get("cross") or meta.get("alt"):
+                        b.slots.setdefault("cross" if meta.get("cross") else "alt", []).append((fn, len(jobs[fn])))
+                    else:
+                        b.slots[mode].append((fn, len(jobs[fn])))
                     jobs[fn].append(term)
             b.impl = impl_outputs(b)
         except Exception as e:  # noqa: BLE001
@@ -638,9 +713,12 @@ def run(out, ctx):
             continue
         built.append(b)
     res = {}
+    import time as _t
+    _t0 = _t.time()
     for fn, terms in jobs.items():
         res[fn] = C.coq_run_cases("C14_" + fn, IMPORTS, "Definition run := %s." % fn, terms,
-                                  shard=max(1, (len(terms) + 15) // 16)) if terms else []
+                                  shard=max(1, (len(terms) + 9) // 10)) if terms else []
+    out.extra["coq_seconds_stage1"] = round(_t.time() - _t0, 1)
     mt_jobs, mt_meta = [], []
     for b in built:
         case = b.case
@@ -648,8 +726,8 @@ def run(out, ctx):
         m = case["m"]
         nn = case["n"] + (case.get("g", 0) if False else 0)
         whitened = strat in ("vs", "ciq", "lmc", "imt")
-        dec_by_mode = {mode: [decode(res[fn][k], m, case["n"], whitened) for fn, k in b.slots[mode]]
-                       for mode in ("eval", "train")}
+        dec_by_mode = {mode: [decode(res[fn][k], m, 0 if mode == "alt" else case["n"], whitened and mode != "cross")
+                              for fn, k in b.slots[mode]] for mode in b.slots}
         nontrivial = case["family"] != "prior"
         out.case(short(case), nontrivial, label="strat=%s" % strat)
         out.count("dist=" + case["dist"]); out.count("batch=" + case.get("batch", "none")); out.count("m=%d" % m)
@@ -662,7 +740,7 @@ def run(out, ctx):
         compare_plain(out, b, b.impl, dec_by_mode)
     if mt_jobs:
         r2 = C.coq_run_cases("C14_mt", IMPORTS, "Definition run := run_c14_mt.", mt_jobs,
-                             shard=max(1, (len(mt_jobs) + 15) // 16))
+                             shard=max(1, (len(mt_jobs) + 3) // 4))
         for b, r in zip(mt_meta, r2):
             compare_mt(out, b, r)
     check_refusals(out)
@@ -700,7 +778,7 @@ def mt_term(b, decs):
         aterm = "(Some %s)" % C.qc_mat(a)
         j = float(b.vs.jitter_val)
     else:
-        aterm = "None"
+        aterm = "(@None (list (list Qc)))"
         j = 0.0
     return "(%d%%nat, %d%%nat, %d%%nat, %s, %s, %s, %s)" % (Q, T, n, aterm, mus, cs, C.qc_lit(j))
 
